@@ -314,6 +314,12 @@ def run(tier):
                     chk.violate('R2.c', '%s:unchecked:%d:%s' % (f.name, k, '&&'.join(req)), loc(f, t.errblock), f.name,
                                 'documented precondition is not screened: `%s` should yield info = -%d (argument %s)'
                                 % (' && '.join(req), k, f.params[k - 1][0]), cfgname=cfgname)
+            # (r) nothing leaves the routine before the screening has run
+            early = [x for st_ in t.region for x in st_.walk() if x.k == 'Return']
+            if early:
+                chk.violate('R2.g', '%s:return-before-the-screening' % f.name, loc(f, early[0]), f.name,
+                            'a `return` (line %d) precedes the argument tests: for the inputs that take it (a quick return on an empty dimension) no argument is '
+                            'screened and an illegal one is answered with info = 0' % early[0].line, cfgname=cfgname)
             # (p) precedence
             nst, over = r2.precedence(prog, f, t)
             if nst == 0:
